@@ -332,6 +332,12 @@ func judge(w *want, g *got) engine.Result {
 		if len(d.forms) != 1 {
 			return bad("form-count", "markup-injected", "form-count", fmt.Sprintf("%d form elements in the document", len(d.forms)))
 		}
+		// nothing may break out of its attribute: the token skeleton of the document
+		// (elements, attribute names, input names, text) is that of the same response
+		// built from harmless values
+		if ref := refSkeleton(w); !slices.Equal(ref, d.skel) {
+			return bad("markup-injected", "markup-injected", "skeleton", fmt.Sprintf("document structure depends on the values / the redirect URI: %v instead of %v", d.skel, ref))
+		}
 		method, _ := attr(d.forms[0], "method")
 		if !strings.EqualFold(method, "post") {
 			return bad("form-method", "markup-injected", "form-method", "form method is "+method)
@@ -407,7 +413,7 @@ func judge(w *want, g *got) engine.Result {
 		}
 	}
 
-	// --- form_post: nothing may break out of its attribute -------------------
+	// --- form_post: the inputs are exactly the response's parameters ----------
 	if used == "form" {
 		known := map[string]bool{}
 		for _, p := range w.named {
@@ -426,10 +432,6 @@ func judge(w *want, g *got) engine.Result {
 			if !in.inForm || !strings.EqualFold(in.typ, "hidden") || !known[in.name] {
 				return bad("markup-injected", "markup-injected", "input", fmt.Sprintf("unexpected input element name=%q type=%q inside-form=%v", in.name, in.typ, in.inForm))
 			}
-		}
-		ref := refSkeleton(w)
-		if !slices.Equal(ref, d.skel) {
-			return bad("markup-injected", "markup-injected", "skeleton", fmt.Sprintf("document structure depends on the values: %v instead of %v", d.skel, ref))
 		}
 	}
 	out := "delivered:" + used
